@@ -46,6 +46,8 @@
 //!   matcher/half-coordinate-pair-accepted   exactly one field of a coordinate pair under a map-matching plugin is not
 //!                                     answered with an error response
 //!
+//! The command-line entry (`command_line_runner`, `CliArgs`): harness/src/c06/cli.rs (case lines `cli …`, oracle keys `cli/*`).
+//!
 //! Which checks catch which seeded changes (quick tier):
 //!   C06_flatten_not_all_arrays         C06 + C12: corpus_mixed_state / user-defined split plugin (correspondence + itemwise oracle)
 //!   C12_yens_spur_count_underflow      C12: corpus_ksp_input_classes + the k-shortest-paths fixtures (yens, grid+yens,
@@ -70,6 +72,8 @@ use serde_json::{json, Map, Value};
 use std::collections::{BTreeMap, HashSet};
 use std::path::{Path, PathBuf};
 use std::sync::{Arc, Mutex};
+
+mod cli;
 
 #[derive(Clone, Copy, PartialEq)]
 pub enum Profile {
@@ -2745,6 +2749,8 @@ pub fn run(ctx: &mut Ctx, profile: Profile) -> &'static str {
     entry_streams(ctx, &fixtures, profile, tag);
     builder_streams(ctx, tag);
     config_stream(ctx, &root, tag);
+    // the command-line entry (harness/src/c06/cli.rs)
+    cli::cli_stream(ctx, profile, tag);
 
     // ---- generated batches ----
     let n_cases = match profile {
